@@ -1055,12 +1055,30 @@ def r_wiring(ctx: Ctx, rule: str, roles: Set[str], floor: int, what: str):
     rep.rule(rule, f"WIRING({what}): at every call between package functions an argument whose source has one of the roles {sorted(roles)} "
                    "is bound to a parameter of the same role (positional order, keywords and defaults resolved against the callee's signature)")
     n_checked = 0
+
+    def derived(fr: FuncInfo, arg: ast.AST, prole: str) -> bool:
+        """a computed quantity (`num + 1`, `min(num, 8)`, `-n`) that mentions a value of the parameter's role without being it"""
+        if prole not in ("NUM", "NCONC", "STARS") or not isinstance(arg, (ast.BinOp, ast.UnaryOp, ast.Call)):
+            return False
+        if isinstance(arg, ast.Call) and not (isinstance(arg.func, ast.Name) and arg.func.id in ("min", "max", "abs", "int", "round")):
+            return False
+        return any(isinstance(x, (ast.Name, ast.Attribute)) and expr_role(ctx, fr, x) == prole for x in ast.walk(arg))
+
+    sites: List[tuple] = []  # (function, frame function, frame env, call expression, callee)
     for f in ctx.pool_functions():
         sc = ctx.an.scope(f)
         for node in sc._own_nodes():
-            if not isinstance(node, ast.Call):
-                continue
-            cal = sc.callee(node)
+            if isinstance(node, ast.Call):
+                sites.append((f, f, None, node, sc.callee(node)))
+        ctx.an.cfg(f)
+    # calls made through a callable handed to a helper / frozen with functools.partial: judged on the stand-in call that spells
+    # out the callee and its arguments (each argument in the frame that wrote it)
+    for key, syn in list(ctx.an.partial_syn.items()):
+        fr, env = ctx.an.partial_frame[key]
+        if ctx.in_pool(fr):
+            sites.append((fr, fr, env, syn, ctx.an.scope(fr).callee(syn)))
+    for f, fr, env, node, cal in sites:
+        if True:
             if cal.kind not in ("pkg", "ctor"):
                 continue
             targets = cal.targets
@@ -1075,7 +1093,16 @@ def r_wiring(ctx: Ctx, rule: str, roles: Set[str], floor: int, what: str):
                     arg = ctx.call_arg(node, t, pname)
                     if arg is None:
                         continue
-                    arole = expr_role(ctx, f, arg)
+                    afr = f
+                    if env is not None or id(arg) in ctx.an.syn_arg_frame:
+                        afr0, aenv0 = ctx.an.syn_arg_frame.get(id(arg), (fr, env))
+                        afr, _aenv, arg = ctx.vals.trace(afr0, aenv0, arg)
+                    arole = expr_role(ctx, afr, arg)
+                    if prole in roles and arole is None and derived(afr, arg, prole):
+                        n_checked += 1
+                        rep.ob(rule, f"the value bound to parameter `{pname}` of {t.short} (role {prole}) is the request's own, not a quantity computed from it", False,
+                               func=f, construct=node, detail=f"{ast.unparse(arg)} -> {pname}")
+                        continue
                     if prole is None or arole in (None, "NONE"):
                         continue
                     if prole not in roles and arole not in roles:
